@@ -408,7 +408,9 @@ class MultiIndexLocation(IndexLocation):
 
     def detachedCopy(self) -> "MultiIndexLocation":
         loc = MultiIndexLocation(None)
-        loc.extend(self._locations)
+        # detached copies of the sub-locations too: the originals belong to (and are handed out
+        # by) the grid this location is being detached from
+        loc.extend([subLoc.detachedCopy() for subLoc in self._locations])
         return loc
 
     def associate(self, grid: "Grid"):
